@@ -263,3 +263,81 @@ Theorem C15_no_mutable_package_state :
   StateInventory.rg_mutated g = false /\ StateInventory.rg_escapes g = false.
 Proof. apply StateInventory.pkg_state_ok_spec. vm_compute. reflexivity. Qed.
 Print Assumptions C15_no_mutable_package_state.
+
+(** THE TRANSACTION METHODS, ON EVERY TRANSACTION (model/AddressTx.v: Tx.PayToAddress / Tx.AddP2PKHOutputFromAddress /
+    Tx.ChangeToAddress as functions of the transaction they are called on - any version, inputs, outputs, lock time:
+    still empty, inputs = outputs, inputs above or below the outputs - of the fee quote and of the string; the change
+    arithmetic is model/Change.v of C10).  The verdict on the STRING is the verdict of NewP2PKHFromAddress and does
+    not depend on the state of the transaction nor on the quote: *)
+From GoBT Require model.Tx model.Fees model.Change model.AddressTx proofs.AddressTxProofs.
+
+(** ChangeToAddress refuses the string as an address exactly when NewP2PKHFromAddress does, on every transaction and
+    quote (the change calculation has errors of its own - insufficient inputs, a missing rate, an input without its
+    previous script - but never this one) ... *)
+Theorem C15_change_to_address_refusal_iff : forall (t : model.Tx.tx) (q : model.Fees.quote) addr,
+  AddressTx.refused_as_address (fst (AddressTx.change_to_address_str t q addr)) = true <->
+  exists e, p2pkh_from_address addr = Err e.
+Proof. exact AddressTxProofs.change_to_address_refusal_iff. Qed.
+Print Assumptions C15_change_to_address_refusal_iff.
+
+(** ... so two transactions (and quotes) never disagree about a string *)
+Theorem C15_tx_methods_verdict_state_independent : forall (t t' : model.Tx.tx) (q q' : model.Fees.quote) sats sats' addr,
+  AddressTx.refused_as_address (fst (AddressTx.change_to_address_str t q addr)) =
+  AddressTx.refused_as_address (fst (AddressTx.change_to_address_str t' q' addr)) /\
+  fst (AddressTx.add_p2pkh_output_from_address t addr sats) = fst (AddressTx.add_p2pkh_output_from_address t' addr sats') /\
+  fst (AddressTx.pay_to_address t addr sats) = fst (AddressTx.pay_to_address t' addr sats').
+Proof.
+  intros. split; [apply AddressTxProofs.change_to_address_refusal_state_independent|].
+  split; apply AddressTxProofs.add_output_verdict_state_independent.
+Qed.
+Print Assumptions C15_tx_methods_verdict_state_independent.
+
+(** a string NewP2PKHFromAddress does not accept is accepted by none of them, whatever the transaction and the quote,
+    and the transaction is afterwards the one the method was called on (nothing half-built is left behind) *)
+Theorem C15_rejected_string_rejected_on_every_tx : forall addr, (forall s, p2pkh_from_address addr <> Ok s) ->
+  forall (t : model.Tx.tx) (q : model.Fees.quote) sats,
+    fst (AddressTx.add_p2pkh_output_from_address t addr sats) <> Ok tt /\
+    snd (AddressTx.add_p2pkh_output_from_address t addr sats) = t /\
+    fst (AddressTx.pay_to_address t addr sats) <> Ok tt /\ snd (AddressTx.pay_to_address t addr sats) = t /\
+    (forall b, fst (AddressTx.change_to_address_str t q addr) <> model.Fees.FOk b) /\
+    snd (AddressTx.change_to_address_str t q addr) = t.
+Proof. exact AddressTxProofs.rejected_string_rejected_on_every_tx. Qed.
+Print Assumptions C15_rejected_string_rejected_on_every_tx.
+
+(** accept => Base58 of 25 bytes with version 00/6f, on every transaction (partial in the same sense as
+    C15_from_address_accept_partial: everything but the checksum - the recorded finding) *)
+Theorem C15_tx_methods_accept_only_base58_25_partial : forall (t : model.Tx.tx) (q : model.Fees.quote) addr sats,
+  (fst (AddressTx.add_p2pkh_output_from_address t addr sats) = Ok tt -> is_base58_25 (bytes_of_string addr)) /\
+  (fst (AddressTx.pay_to_address t addr sats) = Ok tt -> is_base58_25 (bytes_of_string addr)) /\
+  (forall b, fst (AddressTx.change_to_address_str t q addr) = model.Fees.FOk b -> is_base58_25 (bytes_of_string addr)).
+Proof. exact AddressTxProofs.tx_acceptors_accept_only_base58_25. Qed.
+Print Assumptions C15_tx_methods_accept_only_base58_25_partial.
+
+(** what a call leaves behind: version, inputs, lock time and every earlier output as they were; one output appended
+    exactly when the call says so, with the script NewP2PKHFromAddress builds from the string *)
+Theorem C15_change_to_address_leaves : forall (t : model.Tx.tx) (q : model.Fees.quote) addr r t',
+  AddressTx.change_to_address_str t q addr = (r, t') ->
+  model.Tx.tx_version t' = model.Tx.tx_version t /\ model.Tx.tx_ins t' = model.Tx.tx_ins t /\
+  model.Tx.tx_lock t' = model.Tx.tx_lock t /\
+  ((r <> model.Fees.FOk true /\ t' = t) \/
+   (r = model.Fees.FOk true /\ exists s v, p2pkh_from_address addr = Ok s /\
+      model.Tx.tx_outs t' = (model.Tx.tx_outs t ++ [model.Tx.mkOutput v s])%list)).
+Proof. exact AddressTxProofs.change_to_address_str_preserves. Qed.
+Print Assumptions C15_change_to_address_leaves.
+
+Theorem C15_add_output_leaves : forall (t : model.Tx.tx) addr sats r t',
+  AddressTx.add_p2pkh_output_from_address t addr sats = (r, t') ->
+  (r = Ok tt /\ exists s, p2pkh_from_address addr = Ok s /\ t' = Change.add_output t (model.Tx.mkOutput sats s)) \/
+  (r <> Ok tt /\ t' = t).
+Proof. exact AddressTxProofs.add_output_exact. Qed.
+Print Assumptions C15_add_output_leaves.
+
+(** non-vacuity: a malformed string on an empty transaction (0 = 0) and on one whose outputs use up the inputs is
+    refused as an address; a valid address on the same transactions is not *)
+Example C15_tx_methods_example :
+  let empty := model.Tx.mkTx 1 [] [] 0 in
+  let q := model.Fees.mkQuote (Some (FeeSpec.mkRate 5 100)) (Some (FeeSpec.mkRate 5 100)) in
+  AddressTx.change_to_address_str empty q "not an address" = (model.Fees.FErr model.Fees.ErrBadAddress, empty) /\
+  AddressTx.change_to_address_str empty q "1E7ucTTWRTahCyViPhxSMor2pj4VGQdFM0" = (model.Fees.FErr model.Fees.ErrBadAddress, empty) /\
+  AddressTx.change_to_address_str empty q "1E7ucTTWRTahCyViPhxSMor2pj4VGQdFMr" = (model.Fees.FOk false, empty).
+Proof. vm_compute. repeat split. Qed.
